@@ -1,0 +1,10 @@
+//go:build verif
+
+package hamt
+
+// VerifNextBits exposes the reader-side hash bit extraction (hashBits.Next) to the
+// verification harness in /verif. It is compiled only with the "verif" build tag.
+func VerifNextBits(hash []byte, consumed, width int) (int, error) {
+	hb := &hashBits{b: hash, consumed: consumed}
+	return hb.Next(width)
+}
